@@ -456,20 +456,23 @@ class Edit:
     """kind: ins | rep | drop.  where: for ins on a range anchor: 'before' | 'after'.
     tag: T1..T11 (DESIGN.md section 3.1); cid: clause id used in reports."""
 
-    def __init__(self, kind, anchor, text='', where='after', tag='T1', cid=None, note=None):
+    def __init__(self, kind, anchor, text='', where='after', tag='T1', cid=None, note=None, loose=False):
         self.kind, self.anchor, self.text, self.where, self.tag, self.cid, self.note = kind, anchor, text, where, tag, cid, note
+        # loose: the replaced / dropped region may differ from the pinned text as long as its first and last token are still there -
+        # ONLY for a region that is extracted from the current text as an item of its own (T11 lift), so that its content is verified there
+        self.loose = loose
 
 
 def ins(anchor, text, where='after', cid=None, tag='T1'):
     return Edit('ins', anchor, text, where, tag, cid)
 
 
-def rep(anchor, text, tag='T3', cid=None, note=None):
-    return Edit('rep', anchor, text, 'after', tag, cid, note)
+def rep(anchor, text, tag='T3', cid=None, note=None, loose=False):
+    return Edit('rep', anchor, text, 'after', tag, cid, note, loose)
 
 
-def drop(anchor, tag='T6', note=None):
-    return Edit('drop', anchor, '', 'after', tag, None, note)
+def drop(anchor, tag='T6', note=None, loose=False):
+    return Edit('drop', anchor, '', 'after', tag, None, note, loose)
 
 
 def strip_attr_edits(src):
@@ -821,7 +824,7 @@ def apply(pinned_text, current_text, edits, strip_attrs=True, cfg_features=None,
         else:
             if r[0] != 'rg':
                 raise ValueError('rep/drop need a range anchor')
-            s, t = tr.range_unchanged(r[1], r[2])
+            s, t = (tr.start_of(r[1]), tr.end_of(r[2])) if getattr(e, 'loose', False) else tr.range_unchanged(r[1], r[2])
             add(s, t, e.kind, e.text, {'tag': e.tag, 'cid': e.cid, 'anchor': repr(e.anchor), 'note': e.note})
     if auto:
         explicit = [(o[0], o[1]) for o in ops if o[1] > o[0]]
